@@ -37,8 +37,8 @@ def groups():
     gs = [Group('parse_layout', ['C02', 'C04', 'C07'], 'class layouts of Token, Node, SyntaxError, AST', 'layout obligations', _build('layout', layout=True), timeout=300)]
     for fn in MEMBERS:
         owner = 'AST::mk (Compiler/src/ast.cpp)' if fn == 'mk' else f'ParseState::{fn} (Compiler/src/parse.cpp)'
-        gs.append(Group('parse_' + fn, ['C02', 'C04', 'C07'], owner, 'c_' + fn, _build(fn), timeout=900, expect_loops=1 if fn in ('match', 'matchmk') else 0))
+        gs.append(Group('parse_' + fn, ['C02', 'C04', 'C07'] + (['C08'] if fn in ('matchmk', 'mk') else []), owner, 'c_' + fn, _build(fn), timeout=900, expect_loops=1 if fn in ('match', 'matchmk') else 0))
     for fn in ('VALUE', 'VARGS', 'MVARGS', 'PORTS', 'OPORTS', 'ARGS', 'MARGS', 'MOREP', 'P', 'S', 'expected_end_or_semicolon'):
-        gs.append(Group('parse_' + fn, ['C02', 'C04'] + (['C07'] if fn in ('P', 'S') else []), f'{fn} (Compiler/src/parse.cpp)', 'c_' + fn, _build(fn), timeout=1800,
+        gs.append(Group('parse_' + fn, ['C02', 'C04'] + (['C07', 'C08'] if fn in ('P', 'S') else []), f'{fn} (Compiler/src/parse.cpp)', 'c_' + fn, _build(fn), timeout=1800,
                         note='callees (ParseState members and all descent functions) replaced by their contracts'))
     return gs
